@@ -4,8 +4,8 @@ import random
 from . import e2e, outparse, quicsynth, scene, suites, tcpcap, tlssynth
 
 
-def random_tls_flow(rng, idx=0, ep=None, nmax=12, big=False, segkinds=("mss", "random", "whole", "records"), version=None, code=None, sport=443, v6=None,
-                    min_records=0, perturb=False, resume_of=None, duplex=False, repack=False):
+def random_tls_flow(rng, idx=0, ep=None, nmax=12, big=False, segkinds=("mss", "random", "whole", "records", "tail1"), version=None, code=None, sport=443, v6=None,
+                    min_records=0, perturb=False, resume_of=None, duplex=False, repack=False, hrr=False):
     """resume_of: an earlier TLS <= 1.2 flow whose session this one resumes (same version, suite and master secret, fresh randoms)"""
     mx = suites.matrix()
     if version is None:
@@ -19,6 +19,7 @@ def random_tls_flow(rng, idx=0, ep=None, nmax=12, big=False, segkinds=("mss", "r
         spec.resumed = True
         spec.master = resume_of.conn.master
         spec.etm = resume_of.conn.spec.etm
+    spec.hrr = bool(hrr)
     while len(spec.app) < min_records:
         spec.app.append((rng.choice("cs"), rng.randbytes(rng.randrange(1, 200))))
     conn = tlssynth.build_conn(spec, rng)
